@@ -312,6 +312,7 @@ func (l *websocketTransportListener) Close() error {
 	listErr := l.listener.Close()
 	srvErr := l.srv.Close()
 	l.srv = nil
+	l.closeQueued()
 
 	return multierr.Combine(listErr, srvErr)
 }
@@ -338,5 +339,25 @@ func (l *websocketTransportListener) ServeHTTP(writer http.ResponseWriter, reque
 		// The listener was closed before the connection was accepted
 		_ = conn.Close()
 	case l.connChan <- conn:
+		select {
+		case <-l.done:
+			// The listener was closed meanwhile and may have released the queue already
+			l.closeQueued()
+		default:
+		}
+	}
+}
+
+// closeQueued closes the connections that are still in the queue (see ConnBuffer) of a closed
+// listener: they will not be taken by Accept anymore and the HTTP server does not close
+// upgraded connections, so they would be left open.
+func (l *websocketTransportListener) closeQueued() {
+	for {
+		select {
+		case conn := <-l.connChan:
+			_ = conn.Close()
+		default:
+			return
+		}
 	}
 }
